@@ -626,6 +626,10 @@ fn append_instruction(ctx: &mut ValidationContext, inst: Operator, loc: InstrLoc
                                 )
                                 .unwrap();
                             ctx.pop_control().unwrap();
+                            // There was no `else` in the input: emission writes one after the
+                            // consequent (`block`), and this `end` closes the (empty) alternative.
+                            ctx.func.block_mut(block).end = InstrLocId::default();
+                            ctx.func.block_mut(alternative).end = loc;
                             alternative
                         }
                     };
